@@ -3,6 +3,7 @@ CONSTANTS
   MaxDepth = 2
   MutDepth = 1
   DEV_StaleKeyOnMove = FALSE
+  DEV_EqSeesDerived = FALSE
 INVARIANT InvValid
 INVARIANT InvEquivalence
 INVARIANT InvPerturb
@@ -13,6 +14,7 @@ INVARIANT InvThree
 INVARIANT InvMutate
 INVARIANT InvCurrent
 INVARIANT InvMotion
+INVARIANT InvObserved
 PROPERTY PropPerturb
 PROPERTY PropReorder
 PROPERTY PropMutate
